@@ -84,6 +84,10 @@ class ToolboxTask:
         state = np.random.get_state()
         boot_rng = dict(boot._state)
 
+        disturb = None
+        if isinstance(recv, tuple) and len(recv) == 2 and recv[0] == 'disturb':
+            disturb, recv = recv[1], None
+
         def invoke(first):
             if recv is None:
                 return thunk()
@@ -112,6 +116,8 @@ class ToolboxTask:
             return
         if entry.fname in TB.INPLACE_RECEIVER:
             return          # documented in-place operation on the receiver: repeating it is a different request
+        if disturb is not None:
+            disturb()               # an unrelated call on the same (stateless) object in between
         np.random.set_state(state)
         boot._state.update(boot_rng)
         try:
